@@ -310,6 +310,14 @@ type sCase struct {
 
 const valSize = 10 // ZngStream.tla ValSize: uvarint(id) + tag + body
 
+// valBytes mirrors ValBytes of ZngStream.tla.
+func valBytes(token string) int {
+	if token == "E" {
+		return 3
+	}
+	return valSize
+}
+
 // tokens builds, in two type contexts, one value per type token of
 // ZngStream.tla whose encoding is exactly valSize bytes.
 type tokens struct {
@@ -342,6 +350,8 @@ func newTokens() (*tokens, error) {
 		N2, _ := zctx.LookupTypeNamed("n", zed.TypeInt64) // re-binds the name
 		RN := rec(zed.NewField("f", N1), zed.NewField("g", zed.TypeString))
 		U := zctx.LookupTypeUnion([]zed.Type{zed.TypeInt64, zed.TypeString})
+		E := zctx.LookupTypeEnum([]string{"a", ""}) // the typedef ends with an empty counted string
+		RE := rec(zed.NewField("a", zed.TypeInt64), zed.NewField("", zed.TypeInt64))
 		put := func(token string, t zed.Type, build func(b *zcode.Builder) error) error {
 			b := zcode.NewBuilder()
 			if err := build(b); err != nil {
@@ -349,8 +359,8 @@ func newTokens() (*tokens, error) {
 			}
 			it := b.Bytes().Iter()
 			v := zed.NewValue(t, it.Next()).Copy()
-			if n := 1 + len(zcode.Append(nil, v.Bytes())); n != valSize {
-				return fmt.Errorf("token %s encodes in %d bytes, ZngStream.tla assumes %d", token, n, valSize)
+			if n := 1 + len(zcode.Append(nil, v.Bytes())); n != valBytes(token) {
+				return fmt.Errorf("token %s encodes in %d bytes, ZngStream.tla assumes %d", token, n, valBytes(token))
 			}
 			tk.vals[fmt.Sprintf("%d/%s", c, token)] = v
 			return nil
@@ -398,6 +408,19 @@ func newTokens() (*tokens, error) {
 			{"U", U, func(b *zcode.Builder) error {
 				zed.BuildUnion(b, U.TagOf(zed.TypeString), zed.EncodeString("hello"))
 				return nil
+			}},
+			{"E", E, func(b *zcode.Builder) error {
+				b.Append(zed.EncodeUint(1))
+				return nil
+			}},
+			{"RE", RE, func(b *zcode.Builder) error {
+				b.BeginContainer()
+				err := intv(3)(b)
+				if err == nil {
+					err = intv(3)(b)
+				}
+				b.EndContainer()
+				return err
 			}},
 		}
 		for _, s := range steps {
@@ -942,6 +965,196 @@ func (ck *checker) partC() {
 	c.Logf("part C: %d matrix round trips", n)
 }
 
+// ----------------------------------------------- part E: boundary typedefs
+
+type boundaryWitness struct {
+	Kind   string    `json:"kind"` // "boundary"
+	Type   int       `json:"type"` // index into boundaryTypes
+	Shape  string    `json:"shape"`
+	Reader readerCfg `json:"reader"`
+	Name   string    `json:"name,omitempty"`
+	Detail string    `json:"detail,omitempty"`
+}
+
+// boundaryValue builds a value of the i-th boundary type in zctx.
+type boundaryType struct {
+	name  string
+	build func(zctx *zed.Context) zed.Value
+}
+
+func enumVal(syms []string, idx int) func(*zed.Context) zed.Value {
+	return func(zctx *zed.Context) zed.Value {
+		return zed.NewValue(zctx.LookupTypeEnum(syms), zed.EncodeUint(uint64(idx)))
+	}
+}
+
+func recVal(names ...string) func(*zed.Context) zed.Value {
+	return func(zctx *zed.Context) zed.Value {
+		var fields []zed.Field
+		b := zcode.NewBuilder()
+		b.BeginContainer()
+		for i, n := range names {
+			fields = append(fields, zed.NewField(n, zed.TypeInt64))
+			b.Append(zed.EncodeInt(int64(i)))
+		}
+		b.EndContainer()
+		t, err := zctx.LookupTypeRecord(fields)
+		if err != nil {
+			panic(err)
+		}
+		it := b.Bytes().Iter()
+		return zed.NewValue(t, it.Next()).Copy()
+	}
+}
+
+// boundaryTypes are types whose typedef encodings sit on an edge: counted
+// strings of length zero in first, middle and last position, zero counts,
+// look-alike and multi-byte strings, typedefs that end with a string rather
+// than with a type id.
+var boundaryTypes = []boundaryType{
+	{"enum last symbol empty", enumVal([]string{"a", ""}, 1)},
+	{"enum only symbol empty", enumVal([]string{""}, 0)},
+	{"enum first symbol empty", enumVal([]string{"", "a"}, 0)},
+	{"enum middle symbol empty", enumVal([]string{"a", "", "b"}, 2)},
+	{"enum look-alike symbols", enumVal([]string{"a", "A", " a", "a ", "a\x00"}, 4)},
+	{"enum unicode symbols, last empty", enumVal([]string{"é", "日本語", "\u00e9", ""}, 3)},
+	{"enum long last symbol", enumVal([]string{"x", strings.Repeat("s", 200)}, 1)},
+	{"record last field name empty", recVal("a", "")},
+	{"record only field name empty", recVal("")},
+	{"record first field name empty", recVal("", "b")},
+	{"empty record", recVal()},
+	{"record unicode and odd names", recVal("é", "a b", "\"", "日本")},
+	{"named type with a one-space name", func(zctx *zed.Context) zed.Value {
+		t, err := zctx.LookupTypeNamed(" ", zed.TypeInt64)
+		if err != nil {
+			panic(err)
+		}
+		return zed.NewValue(t, zed.EncodeInt(1))
+	}},
+	{"named enum, last symbol empty", func(zctx *zed.Context) zed.Value {
+		t, err := zctx.LookupTypeNamed("é", zctx.LookupTypeEnum([]string{"p", ""}))
+		if err != nil {
+			panic(err)
+		}
+		return zed.NewValue(t, zed.EncodeUint(1))
+	}},
+	{"array of enum, last symbol empty", func(zctx *zed.Context) zed.Value {
+		t := zctx.LookupTypeArray(zctx.LookupTypeEnum([]string{"q", ""}))
+		b := zcode.NewBuilder()
+		b.BeginContainer()
+		b.Append(zed.EncodeUint(1))
+		b.Append(nil)
+		b.EndContainer()
+		it := b.Bytes().Iter()
+		return zed.NewValue(t, it.Next()).Copy()
+	}},
+	{"union of two enums", func(zctx *zed.Context) zed.Value {
+		e1, e2 := zctx.LookupTypeEnum([]string{"u", ""}), zctx.LookupTypeEnum([]string{""})
+		t := zctx.LookupTypeUnion([]zed.Type{e1, e2})
+		b := zcode.NewBuilder()
+		zed.BuildUnion(b, t.TagOf(e2), zed.EncodeUint(0))
+		it := b.Bytes().Iter()
+		return zed.NewValue(t, it.Next()).Copy()
+	}},
+	{"error of enum, last symbol empty", func(zctx *zed.Context) zed.Value {
+		t := zctx.LookupTypeError(zctx.LookupTypeEnum([]string{"r", ""}))
+		return zed.NewValue(t, zed.EncodeUint(1))
+	}},
+	{"type value of an enum whose last symbol is empty", func(zctx *zed.Context) zed.Value {
+		return zed.NewValue(zed.TypeType, zed.EncodeTypeValue(zctx.LookupTypeEnum([]string{"s", ""})))
+	}},
+}
+
+// boundaryShapes place the boundary typedef at different positions of the
+// types frame and of the stream.
+var boundaryShapes = []string{
+	"alone-thresh1",   // its own types frame, flushed at once
+	"last-in-frame",   // after other new types, one types frame written at Close
+	"first-in-frame",  // before other new types in the same types frame
+	"second-stream",   // re-defined after an end-of-stream marker, compressed
+	"frame-end-exact", // FrameThresh equal to the pending typedef bytes: the typedef ends the frame that its own size triggers
+}
+
+func (ck *checker) boundaryOracle(w boundaryWitness) {
+	c := ck.c
+	bt := boundaryTypes[w.Type]
+	w.Name = bt.name
+	z1, z2 := zed.NewContext(), zed.NewContext()
+	v := bt.build(z1)
+	other := recVal("k", "l")(z2)
+	plain := zed.NewInt64(7)
+	var buf bytes.Buffer
+	var written []wr
+	opts := zngio.WriterOpts{FrameThresh: 1 << 20}
+	var seq []zed.Value
+	eosAfter := -1
+	switch w.Shape {
+	case "alone-thresh1":
+		opts.FrameThresh = 1
+		seq = []zed.Value{plain, v, plain}
+	case "last-in-frame":
+		seq = []zed.Value{other, plain, v}
+	case "first-in-frame":
+		seq = []zed.Value{v, other}
+	case "second-stream":
+		opts.Compress = true
+		seq = []zed.Value{v, other, v, bt.build(z2)}
+		eosAfter = 1
+	case "frame-end-exact":
+		// Find the size of the typedef bytes this value needs and use it as the threshold.
+		var probe bytes.Buffer
+		pw := zngio.NewWriterWithOpts(zio.NopCloser(&probe), opts)
+		pw.Write(v)
+		pw.Close()
+		if fr, err := walk(probe.Bytes()); err == nil && len(fr) > 0 && fr[0].Kind == "T" {
+			opts.FrameThresh = fr[0].PayloadLen
+		}
+		seq = []zed.Value{v, plain}
+	}
+	zw := zngio.NewWriterWithOpts(zio.NopCloser(&buf), opts)
+	for i, x := range seq {
+		if err := zw.Write(x); err != nil {
+			w.Detail = err.Error()
+			c.Violate("roundtrip:boundary:write-error", fmt.Sprintf("writing a value of a boundary type (%s) fails: %v", bt.name, err), w)
+			return
+		}
+		written = append(written, project(x))
+		if i == eosAfter {
+			if err := zw.EndStream(); err != nil {
+				c.Violate("roundtrip:boundary:write-error", "EndStream fails: "+err.Error(), w)
+				return
+			}
+		}
+	}
+	if err := zw.Close(); err != nil {
+		c.Violate("roundtrip:boundary:write-error", "Close fails: "+err.Error(), w)
+		return
+	}
+	data := buf.Bytes()
+	if frames, err := walk(data); err != nil {
+		c.Drift("boundary %s/%s: the frame walker cannot parse the writer's output: %v", bt.name, w.Shape, err)
+	} else if err := checkStreamDiscipline(frames); err != nil {
+		c.Drift("boundary %s/%s: %v", bt.name, w.Shape, err)
+	}
+	c.Eval(fmt.Sprintf("boundary|%d|%s|%+v", w.Type, w.Shape, w.Reader), true)
+	res := readBack(data, w.Reader, nil)
+	bad := ck.judge("boundary", written, res, w, func(detail string) any { w.Detail = detail; return w })
+	ck.addTrace(w.Reader.Threads, data, res.events, "boundary "+bt.name, bad)
+}
+
+func (ck *checker) partE() {
+	n := 0
+	for i := range boundaryTypes {
+		for j, shape := range boundaryShapes {
+			rc := readerCycle[(i+j)%len(readerCycle)]
+			ck.boundaryOracle(boundaryWitness{Kind: "boundary", Type: i, Shape: shape, Reader: rc})
+			n++
+		}
+	}
+	ck.c.Sample(map[string]any{"part": "E", "boundary_types": len(boundaryTypes), "shapes": boundaryShapes})
+	ck.c.Logf("part E: %d boundary-typedef round trips (%d types x %d placements)", n, len(boundaryTypes), len(boundaryShapes))
+}
+
 // ------------------------------------------------ part D: trace validation
 
 func (tr *traceRec) ndjson(buf *bytes.Buffer) {
@@ -1168,9 +1381,9 @@ func compactEvents(evs []hookEvent) string {
 
 func run(c *core.Ctx) error {
 	c.Trust("TLC 1.8 (tla2tools 2026.09); the harness's frame walker (encoding/binary + lz4 block decoder), value generator and hook gate; zson.FormatType / zed.EncodeTypeValue for comparing types across contexts")
-	c.Assume("scripts of at most MaxOps operations over 7 type tokens in 2 type contexts, thresholds {1, 20, 30, 10^6} bytes (part A); at most 6 values frames and 4 decode threads for the enumerated completion orders (part B); value nesting depth <= 3, at most 40 values, thresholds up to 2^20 sampled (part C)")
+	c.Assume("scripts of at most MaxOps operations over 9 type tokens in 2 type contexts, thresholds {1, 20, 30, 10^6} bytes (part A); at most 6 values frames and 4 decode threads for the enumerated completion orders (part B); value nesting depth <= 3, at most 40 values, thresholds up to 2^20 sampled (part C)")
 	c.Assume("control frames and the buffer-filter (pushdown) path of the scanner are not exercised")
-	c.Rule("cases = (A) every script printed by TLC from ZngStream.tla replayed on the real writer and compared frame by frame with the predicted wire, then read back; (B) every worker completion order printed by TLC from ZngScanner.tla forced on the real threaded scanner over a random multi-stream input; (C) seeded random (value sequence, writer options, reader options) round trips.  Non-trivial = at least two values frames (A, C) / a completion order that is not the dispatch order (B).  Every threaded read's hook trace is validated against ZngScannerTrace.tla")
+	c.Rule("cases = (A) every script printed by TLC from ZngStream.tla replayed on the real writer and compared frame by frame with the predicted wire, then read back; (B) every worker completion order printed by TLC from ZngScanner.tla forced on the real threaded scanner over a random multi-stream input; (C) seeded random (value sequence, writer options, reader options) round trips; (E) a fixed list of boundary typedefs (empty / look-alike / unicode counted strings in first, middle and last position, empty records, typedefs ending a frame) x placements in the types frame and stream.  Non-trivial = at least two values frames (A, C) / a completion order that is not the dispatch order (B).  Every threaded read's hook trace is validated against ZngScannerTrace.tla")
 	tk, err := newTokens()
 	if err != nil {
 		return err
@@ -1204,6 +1417,7 @@ func run(c *core.Ctx) error {
 	ck.maxTraces += len(ck.traces)
 	ck.partA(cases)
 	ck.maxTraces += ck.maxTraces / 2
+	ck.partE()
 	ck.partC()
 	ck.partD()
 	return nil
@@ -1229,6 +1443,10 @@ func (ck *checker) replay() error {
 		var w matrixWitness
 		ck.c.ReplayWitness(&w)
 		ck.matrixOracle(w)
+	case "boundary":
+		var w boundaryWitness
+		ck.c.ReplayWitness(&w)
+		ck.boundaryOracle(w)
 	default:
 		return fmt.Errorf("unknown witness kind %q", kind.Kind)
 	}
